@@ -4,4 +4,4 @@ export GOFLAGS=-mod=mod GOPROXY=off GOSUMDB=off GOTOOLCHAIN=local
 set -e
 REPO=${VERIF_REPO:-/repo}
 cd "$REPO" && go build ./... && go test -vet=off -count=1 -timeout 25m ./...
-cd "$REPO/cmd/arcaflow-codegen" && go build ./... && go test -vet=off -count=1 -timeout 25m ./...
+cd "$REPO/cmd/arcaflow-codegen" && go build -o /dev/null ./... && go test -vet=off -count=1 -timeout 25m ./...
